@@ -285,6 +285,14 @@ func c19Gen(seed uint64, tier string) *Plan {
 		p.Insts = append(p.Insts, ip)
 	}
 	pushpull := Pick(rng, []Dur{20 * time.Second, 45 * time.Second, 5 * time.Minute})
+	// relay mode: three instances, a loss-free network in which the link between two
+	// of them is cut for a long phase; an update made on one side of the cut must
+	// reach the other side through the common neighbour's re-broadcast, long before
+	// the next full-state exchange
+	relay := n == 3 && !late && rng.Bool(0.3)
+	if relay {
+		pushpull = 5 * time.Minute
+	}
 	p.Opts = InstOpts{Cluster: true, PeerTimeout: rng.Dur(2*time.Second, 8*time.Second), GossipInterval: 200*time.Millisecond + 7, PushPullInterval: pushpull + 29,
 		ProbeInterval: time.Second + 13, ProbeTimeout: 500*time.Millisecond + 3, SettleTimeout: 5 * time.Second, ReconnectInterval: 10*time.Second + 17,
 		Retention: 2 * time.Hour, MaintenanceInterval: 15*time.Minute + 13, AlertGCInterval: 30*time.Minute + 29, DispatchMaintenance: 30*time.Second + 7}
@@ -293,7 +301,16 @@ func c19Gen(seed uint64, tier string) *Plan {
 		faultsUntil = time.Millisecond // a fault-free run
 	}
 	p.Net = &NetPlan{MinDelay: 2*time.Millisecond + 11, FaultsUntil: faultsUntil}
-	if faultsUntil > time.Second {
+	var relayA, relayB int
+	var relayFrom, relayTo Dur
+	if relay {
+		relayA = rng.Intn(3)
+		relayB = (relayA + 1 + rng.Intn(2)) % 3
+		relayFrom, relayTo = 45*time.Second, rng.Dur(4*time.Minute, 9*time.Minute)
+		p.Net.FaultsUntil = time.Millisecond // no loss, duplication or jitter
+		p.Net.Parts = []Partition{{From: relayFrom, To: relayTo, A: []int{relayA}, B: []int{relayB}}}
+		faultsUntil = relayTo
+	} else if faultsUntil > time.Second {
 		p.Net.DropPct = rng.Range(0, 30)
 		p.Net.DupPct = rng.Range(0, 20)
 		p.Net.Jitter = rng.Dur(0, 300*time.Millisecond)
@@ -314,7 +331,16 @@ func c19Gen(seed uint64, tier string) *Plan {
 		if p.Insts[inst].StartAt > 0 && at < p.Insts[inst].StartAt+10*time.Second {
 			inst = 0
 		}
-		s := &PSilence{Key: fmt.Sprintf("s%d", i), Matchers: []M{{"alertname", "=", fmt.Sprintf("S%d", i)}}, EndOff: time.Hour, Comment: strings.Repeat("p", Pick(rng, sizes))}
+		sz := Pick(rng, sizes)
+		if relay && rng.Bool(0.8) {
+			// small updates made on the two sides of the cut, mostly while it lasts
+			inst = Pick(rng, []int{relayA, relayB})
+			sz = Pick(rng, sizes[:3])
+			if rng.Bool(0.7) {
+				at = rng.Dur(15*time.Second, relayTo-40*time.Second)
+			}
+		}
+		s := &PSilence{Key: fmt.Sprintf("s%d", i), Matchers: []M{{"alertname", "=", fmt.Sprintf("S%d", i)}}, EndOff: time.Hour, Comment: strings.Repeat("p", sz)}
 		at = b.add(Action{At: at, Kind: "silence", Inst: inst, Sil: s})
 		if rng.Bool(0.4) {
 			// a burst: a second update on the same instance within one gossip interval
@@ -322,25 +348,43 @@ func c19Gen(seed uint64, tier string) *Plan {
 			s2 := &PSilence{Key: fmt.Sprintf("s%d", i), Matchers: []M{{"alertname", "=", fmt.Sprintf("S%d", i)}}, EndOff: time.Hour, Comment: strings.Repeat("q", Pick(rng, sizes[:6]))}
 			b.add(Action{At: at + rng.Dur(time.Millisecond, 150*time.Millisecond), Kind: "silence", Inst: inst, Sil: s2})
 		}
-		if et := at + rng.Dur(5*time.Second, 2*time.Minute); rng.Bool(0.3) && et < p.Horizon-20*time.Second {
+		pe := 0.3
+		if relay {
+			pe = 0.7 // new versions of silences the other side already knows
+		}
+		if et := at + rng.Dur(5*time.Second, 2*time.Minute); rng.Bool(pe) && et < p.Horizon-20*time.Second {
 			b.add(Action{At: et, Kind: "expire", Inst: inst, SilKey: s.Key})
 		}
 	}
 	// alerts to every instance (notification-log traffic from real flushes)
-	for c := rng.Range(1, 4); c > 0; c-- {
+	ngroups := rng.Range(1, 4)
+	if rng.Bool(0.3) {
+		ngroups = rng.Range(8, 12) // a notification log whose full state exceeds one gossip packet
+	}
+	for c := ngroups; c > 0; c-- {
 		at := rng.Dur(12*time.Second, p.Horizon/2)
-		ls := map[string]string{"alertname": fmt.Sprintf("N%d", c), "job": "j"}
-		for i := 0; i < n; i++ {
-			t := at + Dur(i)*rng.Dur(time.Millisecond, 400*time.Millisecond)
-			if p.Insts[i].StartAt > 0 && t < p.Insts[i].StartAt+time.Second {
-				continue
+		if relay && rng.Bool(0.7) {
+			at = rng.Dur(relayFrom+25*time.Second, relayTo-3*time.Minute)
+		}
+		posts := []Dur{at}
+		if relay || rng.Bool(0.3) {
+			// a second alert of the same group later on: the group's log entry is updated
+			posts = append(posts, at+rng.Dur(35*time.Second, 100*time.Second))
+		}
+		for k, at := range posts {
+			ls := map[string]string{"alertname": fmt.Sprintf("N%d", c), "job": fmt.Sprintf("j%d", k)}
+			for i := 0; i < n; i++ {
+				t := at + Dur(i)*rng.Dur(time.Millisecond, 400*time.Millisecond)
+				if p.Insts[i].StartAt > 0 && t < p.Insts[i].StartAt+time.Second {
+					continue
+				}
+				e := 20 * time.Minute
+				b.add(Action{At: t, Kind: "post", Inst: i, Alerts: []PAlert{{Labels: ls, EndOff: &e}}})
 			}
-			e := 20 * time.Minute
-			b.add(Action{At: t, Kind: "post", Inst: i, Alerts: []PAlert{{Labels: ls, EndOff: &e}}})
 		}
 	}
 	// foreign peer
-	if rng.Bool(0.5) {
+	if !relay && rng.Bool(0.5) {
 		ft := rng.Dur(20*time.Second, p.Horizon/2)
 		b.add(Action{At: ft, Kind: "foreign_start"})
 		if rng.Bool(0.7) {
@@ -360,6 +404,11 @@ func c19Gen(seed uint64, tier string) *Plan {
 	for c := rng.Range(3, 8); c > 0; c-- {
 		b.add(Action{At: rng.Dur(10*time.Second, p.Horizon-time.Second), Kind: "cluster_probe", Str: "mid"})
 	}
+	if relay {
+		for t := relayFrom + 40*time.Second; t < relayTo-2*time.Second; t += rng.Dur(15*time.Second, 40*time.Second) {
+			b.add(Action{At: t, Kind: "cluster_probe", Str: "relay"})
+		}
+	}
 	p.SortActions()
 	// a gossip-latency probe 10 s after every silence operation
 	var extra []Action
@@ -375,6 +424,9 @@ func c19Gen(seed uint64, tier string) *Plan {
 	}
 	p.SortActions()
 	p.Params = map[string]any{"settle": int64(settle), "faults_until": int64(faultsUntil), "pushpull": int64(pushpull)}
+	if relay {
+		p.Params["relay_from"], p.Params["relay_to"] = int64(relayFrom), int64(relayTo)
+	}
 	return p
 }
 
@@ -400,7 +452,15 @@ func c19Check(p *Plan, r *RunResult) *Verdict {
 		case "silence":
 			ups = append(ups, upd{rec.T, silIDFromResp(rec.Resp), rec.Inst, len(rec.Body)})
 		case "expire":
-			ups = append(ups, upd{rec.T, strings.TrimPrefix(rec.Path, "/api/v2/silence/"), rec.Inst, 0})
+			// an expiry gossips the whole silence again: it is as large as the request that made it
+			id := strings.TrimPrefix(rec.Path, "/api/v2/silence/")
+			size := 0
+			for _, u := range ups {
+				if u.ID == id && u.Size > size {
+					size = u.Size
+				}
+			}
+			ups = append(ups, upd{rec.T, id, rec.Inst, size})
 		}
 	}
 	startOf := map[string]Dur{}
@@ -511,9 +571,81 @@ func c19Check(p *Plan, r *RunResult) *Verdict {
 					}
 				}
 			}
+		case pv.Tag == "relay":
+			// relay phase (see the gossip case): every notification-log entry written at
+			// least 10 s ago is held by every instance, also when it replaced an entry
+			// the relaying neighbour already knew
+			rf, rt := Dur(pInt64(p, "relay_from")), Dur(pInt64(p, "relay_to"))
+			if rt == 0 || pv.T < rf+30*time.Second || pv.T > rt-time.Second || len(p.Net.Parts) != 1 {
+				continue
+			}
+			newestNf := map[string]time.Time{}
+			for _, vw := range pv.Views {
+				if vw == nil {
+					continue
+				}
+				for k, ts := range vw.Nf {
+					if ts.After(newestNf[k]) {
+						newestNf[k] = ts
+					}
+				}
+			}
+			for name, vw := range pv.Views {
+				if vw == nil {
+					continue
+				}
+				for k, want := range newestNf {
+					if pv.T-want.Sub(p.Start) < 10*time.Second {
+						continue
+					}
+					v.Ob("log-entry-relayed-by-common-neighbour")
+					if got, ok := vw.Nf[k]; !ok || got.Before(want) {
+						v.Fail("C19", "C19/log-entry-not-relayed", pv.T, "instance %s does not hold the notification-log entry for %s stamped %v (it holds %v) more than 10 s after it was written, although every instance is connected to a common neighbour over a loss-free network (one link is cut; next full-state exchange up to %v away)", name, k, want.Sub(p.Start), got.Sub(p.Start), Dur(pInt64(p, "pushpull")))
+					}
+				}
+			}
 		case pv.Tag == "gossip":
 			// in a clean phase an update is everywhere within 10 s, long before the next push/pull
 			at := pv.T - 10*time.Second
+			// the version the originating instance holds, unless the silence was changed again since
+			wantOf := func(u upd) (time.Time, bool) {
+				for _, x := range ups {
+					if x.ID == u.ID && x.T > u.T && x.T <= pv.T {
+						return time.Time{}, false
+					}
+				}
+				ov := pv.Views[u.Inst]
+				if ov == nil {
+					return time.Time{}, false
+				}
+				w, ok := ov.Sils[u.ID]
+				return w, ok
+			}
+			if rf, rt := Dur(pInt64(p, "relay_from")), Dur(pInt64(p, "relay_to")); rt > 0 && at >= rf+20*time.Second && pv.T <= rt-time.Second && len(p.Net.Parts) == 1 {
+				// relay phase: one link of a three-instance, loss-free cluster is cut. A small
+				// update is gossiped to the common neighbour, which merges it and gossips it
+				// on: it is everywhere within seconds, although the next full-state exchange
+				// is minutes away.
+				for _, u := range ups {
+					if u.T != at || u.Size >= 600 || u.Size == 0 {
+						continue
+					}
+					want, ok := wantOf(u)
+					if !ok {
+						continue
+					}
+					for name, vw := range pv.Views {
+						if vw == nil {
+							continue
+						}
+						v.Ob("update-relayed-by-common-neighbour")
+						if got, ok := vw.Sils[u.ID]; !ok || got.Before(want) {
+							v.Fail("C19", "C19/update-not-relayed", pv.T, "silence %s changed on %s at %v (request of %d bytes): %s does not hold that version 10 s later although both are connected to a common neighbour over a loss-free network (only one link is cut; next full-state exchange up to %v away)", u.ID[:8], u.Inst, u.T, u.Size, name, Dur(pInt64(p, "pushpull")))
+						}
+					}
+				}
+				continue
+			}
 			if at < faultsUntil+5*time.Second || cut(at-time.Second, pv.T) {
 				continue
 			}
@@ -537,9 +669,6 @@ func c19Check(p *Plan, r *RunResult) *Verdict {
 				}
 				oversized := u.Size > 1000
 				small2 := u.Size > 0 && u.Size < 600 && len(p.Insts) == 2 && foreignAt < 0
-				if u.Size == 0 {
-					small2 = len(p.Insts) == 2 && foreignAt < 0 // an expiry is a small update
-				}
 				if !oversized && !small2 {
 					continue
 				}
@@ -548,7 +677,8 @@ func c19Check(p *Plan, r *RunResult) *Verdict {
 						continue
 					}
 					v.Ob("clean-phase-gossip-latency")
-					if _, ok := vw.Sils[u.ID]; !ok {
+					want, known := wantOf(u)
+					if got, ok := vw.Sils[u.ID]; !ok || (known && got.Before(want)) {
 						v.Fail("C19", "C19/update-not-gossiped-in-clean-phase", pv.T, "silence %s (request of %d bytes) accepted by %s at %v is not held by %s 10 s later although the network is fault-free and the next full-state exchange is up to %v away", u.ID[:8], u.Size, u.Inst, u.T, name, Dur(pInt64(p, "pushpull")))
 					}
 				}
